@@ -30,17 +30,28 @@ def act (l : Nat) (a : Assoc) (c : Nat) : Act :=
     | .right => .shift
     | .nonassoc => .error
 
+/-- the clause keywords and punctuation of a SELECT statement (Csvq.Model.Clause); to the expression parser they are
+    just tokens at which an expression ends -/
+inductive Kw
+  | select | distinct | from | where | group | by | having | order | asc | desc | nulls | first | last
+  | limit | offset | percent | row | rows | only | with | ties | as | comma | dot
+  | join | inner | outer | left | right | full | cross | natural | on | using
+  | union | except | intersect | all
+  deriving DecidableEq, Repr
+
 structure Table (α : Type) where
   bin : α → Option (Nat × Assoc)     -- `value T value`
   pre : α → Option Nat               -- `T value [%prec P]`: level of P
   post : α → Option (Nat × Assoc)    -- `value T negation (ternary | null)`
   neg : α                            -- the token of `negation`
+  star : α                           -- `*`, which is also the select item "all columns"
 
 inductive Tok (α : Type)
   | atom (n : Nat)                   -- an identifier or a number
   | lpar | rpar
   | sym (t : α) (v : Nat)            -- an operator / keyword terminal; `v` tells its spellings apart (`<`, `<=`, …)
   | lit (w : Nat)                    -- NULL, TRUE, FALSE, UNKNOWN after IS
+  | kw (k : Kw)                      -- a clause keyword or `,` `.`
   deriving DecidableEq, Repr
 
 inductive Expr (α : Type)
@@ -145,5 +156,6 @@ def genTable : Table Term where
     | none => none
   post t := if postfixOps.contains t then levelOf t else none
   neg := negationToken
+  star := .c_star
 
 end Csvq.OpExpr
